@@ -54,9 +54,9 @@ static const cfg_t cfgs[] = {
     { "n3 hdr64 page4 2pools d9", 0, { 3, 64, 0, 4, 56, 2 }, 9, OPS2 },
     { "n2 hdr192 off128 page3 2pools (stack-like) d8", 0,
       { 2, 192, 128, 3, 64, 2 }, 8, OPS2 },
-    { "n3 hdr128 page5 3pools d8", 0, { 3, 128, 0, 5, 16, 3 }, 8, OPS3 },
+    { "n3 hdr128 page5 3pools d7", 0, { 3, 128, 0, 5, 16, 3 }, 7, OPS3 },
     { "n4 hdr64 page3 2pools d9", 0, { 4, 64, 0, 3, 0, 2 }, 9, OPS2 },
-    { "n2 hdr64 page2 3pools d8", 0, { 2, 64, 0, 2, 24, 3 }, 8, OPS3 },
+    { "n2 hdr64 page2 3pools d7", 0, { 2, 64, 0, 2, 24, 3 }, 7, OPS3 },
 };
 
 #define SHARD 4
